@@ -4,7 +4,7 @@ from runner import Prop
 import common
 from common import hx, unhx, build_go
 import gen as G
-from C09 import parse_entries, frame
+from C09 import parse_entries, parse_file, frame
 
 
 class C06(Prop):
@@ -121,12 +121,11 @@ class C06(Prop):
             if o["finished"] != "1":
                 fails.append({"msg": "sched %s: schedule did not finish (deadlock): %s" % (idx, kv["events"][-120:])})
                 continue
-            if o["outcomes"] != want:
+            if not common.outcomes_agree(o["outcomes"], want):
                 fails.append({"msg": "sched %s: outcomes %s, serial execution gives %s" % (idx, o["outcomes"], want), "events": kv["events"]})
             final = unhx(o["file"]) if o["file"] != "~" else b""
-            got = parse_entries(final)
-            rebuilt = b"".join(frame(i, b) for i, b in got)
-            if rebuilt != final:
+            got, residue = parse_file(final)
+            if residue:
                 fails.append({"msg": "sched %s: final file is not a sequence of well-formed entries (torn): %r" % (idx, final[-80:]), "events": kv["events"]})
             elif sorted(got) != sorted(exp_entries.items()):
                 fails.append({"msg": "sched %s: final entries %s, expected %s" % (idx, sorted(i for i, _ in got), sorted(exp_entries)), "events": kv["events"]})
